@@ -1,6 +1,6 @@
 SPECIFICATION Spec
 CONSTANTS
-  Part = "rewind"
+  Parts = {"rewind"}
   Seeds = {"s1", "s2"}
   Comps = {"c0", "h0"}
   HardComps = {"h0"}
@@ -23,6 +23,6 @@ CONSTANTS
   AlgStride = 1
   CbStride = 1
   ShapeStride = 1
-  PairStride = 1601
+  PairStride = 3203
   WalPicks = 1
-INVARIANTS TypeOK KeychainMatrixOK ViewMatrixOK NeverGarbage OtherSeedNothing OwnFormatOnly ProofsVerify Determinism NoCollision SwappedProofNothing PaddingIgnored EmitPair
+INVARIANTS TypeOK KeychainMatrixOK ViewMatrixOK NeverGarbage OtherSeedNothing OwnFormatOnly ProofsVerify Determinism NoCollision SwappedProofNothing EmitPair
